@@ -1167,3 +1167,11 @@ where
 
     Ok(())
 }
+
+#[cfg(all(kani, fuellabs_fuel_vm_verif))]
+pub(crate) mod verif {
+    include!(concat!(
+        env!("FUELLABS_FUEL_VM_VERIF_DIR"),
+        "/incrate/vm_memory.rs"
+    ));
+}
